@@ -84,7 +84,7 @@ func c06releaser0(fn *ssa.Function) bool {
 // acquiring wrapper that dominates `at` and is not followed by a release (direct or through a releasing wrapper) on a
 // path to `at`.
 func c06heldAt(at ssa.Instruction, write bool) []string {
-	held := heldAt(at, write)
+	held := heldAtDirect(at, write)
 	f := at.Parent()
 	if f == nil {
 		return held
